@@ -4,7 +4,7 @@ from core import Case, enc_b, enc_s
 from props.cardutil import tdes, corpus, digits, rb
 
 OBLIGATIONS = ["Psec.Props.C10.pvv_eq_spec", "Psec.Props.C10.pvv_four_digits"]
-TABLE_OBLIGATIONS = ["Psec.Tables.pvv_translate_agree", "Psec.Tables.decimalize_by_table", "Psec.Tables.ascii_n_agree"]   # model = tables regenerated from the source (harness/tables.py)
+TABLE_OBLIGATIONS = ["Psec.Tables.pvv_translate_agree", "Psec.Tables.pvv_decimalize_by_table", "Psec.Tables.ascii_n_agree"]   # model = tables regenerated from the source (harness/tables.py)
 TRUSTED_BASE = ["Lean 4.33 kernel", "Spec/CardVerif.lean is my reading of the Visa PVV algorithm", "correspondence harness and compiled driver"]
 RULE = ("corpus of inputs needing the second decimalisation pass (0..3 decimal nibbles) first, then a seeded search, then PVK sizes 8/16/24 x index 0..9 "
         "x PINs x PAN lengths 12..24; thorough: all 10^4 PINs; distinct = distinct driver lines")
